@@ -145,3 +145,116 @@ fn finish_line<R: Resolver<TokenKey> + ?Sized>(trace: String, fin: Result<GreenN
         Err(c) => format!("{trace} | PANIC:{c}"),
     }
 }
+
+/// Pre-order list of allocation addresses of all elements of a green tree.
+fn addrs(node: &GreenNode, out: &mut Vec<usize>) {
+    out.push(node.verif_addr());
+    for c in node.children() {
+        match c {
+            NodeOrToken::Node(n) => addrs(n, out),
+            NodeOrToken::Token(t) => out.push(t.verif_addr()),
+        }
+    }
+}
+
+fn history<I: Interner<TokenKey>>(cache: &mut NodeCache<'_, I>, builds: &[Vec<Op>], fail: Option<&Rc<Cell<bool>>>) -> String {
+    let mut trees: Vec<Result<GreenNode, String>> = Vec::new();
+    let mut traces = Vec::new();
+    let mut first_dumps = Vec::new();
+    for ops in builds {
+        let (trace, fin) = run_ops(cache, ops, fail);
+        traces.push(trace);
+        let mut s = String::new();
+        match &fin {
+            Ok(n) => dump_green(n, cache.interner(), &mut s),
+            Err(c) => s = format!("PANIC:{c}"),
+        }
+        first_dumps.push(s);
+        trees.push(fin);
+    }
+    // every earlier tree again, after all builds (must be unchanged), and the sharing partition
+    let mut out = String::new();
+    let mut all = Vec::new();
+    for (i, t) in trees.iter().enumerate() {
+        let mut s = String::new();
+        match t {
+            Ok(n) => {
+                dump_green(n, cache.interner(), &mut s);
+                addrs(n, &mut all);
+            }
+            Err(c) => s = format!("PANIC:{c}"),
+        }
+        if s != first_dumps[i] {
+            s = format!("CHANGED<{}=>{}>", first_dumps[i], s);
+        }
+        out.push_str(&format!("{} | {} || ", traces[i], s));
+    }
+    let mut seen: Vec<usize> = Vec::new();
+    let ids: Vec<String> = all
+        .iter()
+        .map(|a| {
+            let i = match seen.iter().position(|x| x == a) {
+                Some(i) => i,
+                None => {
+                    seen.push(*a);
+                    seen.len() - 1
+                }
+            };
+            i.to_string()
+        })
+        .collect();
+    out.push_str(&format!("share {}", ids.join(",")));
+    out
+}
+
+/// `H <backend> <mask> <ops...> [/ <ops...>]*` — a history of trees through one cache.
+pub fn run_history(args: &[&str]) -> String {
+    let backend = args[0];
+    let mask = match args[1] {
+        "f" => u32::MAX,
+        m => u32::from_str_radix(m, 16).unwrap(),
+    };
+    cstree::verif::set_hash_mask(mask);
+    let builds: Vec<Vec<Op>> = args[2..].split(|t| *t == "/").map(|ts| parse_ops(ts.iter().copied())).collect();
+    let r = match backend {
+        "d" => {
+            let mut cache = NodeCache::new();
+            history(&mut cache, &builds, None)
+        }
+        "u" => {
+            let mut interner = UserInterner::default();
+            let flag = interner.fail_next.clone();
+            let mut cache = NodeCache::with_interner(&mut interner);
+            history(&mut cache, &builds, Some(&flag))
+        }
+        "r" => {
+            let mut interner: lasso::Rodeo<lasso::Spur> = lasso::Rodeo::new();
+            let mut cache = NodeCache::with_interner(&mut interner);
+            history(&mut cache, &builds, None)
+        }
+        "m" => {
+            let mut interner: lasso::Rodeo<lasso::MiniSpur> = lasso::Rodeo::new();
+            let mut cache = NodeCache::with_interner(&mut interner);
+            history(&mut cache, &builds, None)
+        }
+        "t" => {
+            let mut interner = cstree::interning::new_threaded_interner();
+            let mut cache = NodeCache::with_interner(&mut interner);
+            history(&mut cache, &builds, None)
+        }
+        "h" => {
+            let interner: lasso::ThreadedRodeo<lasso::Spur> = lasso::ThreadedRodeo::new();
+            let mut shared = &interner;
+            let mut cache = NodeCache::with_interner(&mut shared);
+            history(&mut cache, &builds, None)
+        }
+        "a" => {
+            let mut interner = std::sync::Arc::new(cstree::interning::new_threaded_interner());
+            let mut cache = NodeCache::with_interner(&mut interner);
+            history(&mut cache, &builds, None)
+        }
+        _ => panic!("backend {backend}"),
+    };
+    cstree::verif::set_hash_mask(u32::MAX);
+    r
+}
